@@ -117,9 +117,11 @@ def checkInjection (cs : SimCase) (c : Compiled) : Option String := Id.run do
         let expV := match hit with | some a => a.val | none => pv
         let isIn := match l with | .inReg _ => true | _ => false
         let expVa := if isIn then (if hit.isSome then 1 else if prc == 1 then 0 else pva) else pva
+        -- the previous dump was taken before the loop acknowledged the outputs (recv := valid)
+        let expRc := if isIn then prc else pva
         if v != expV then return some s!"t={t} {name} value {v} expected {expV}"
         if va != expVa then return some s!"t={t} {name} valid {va} expected {expVa}"
-        if rc != prc then return some s!"t={t} {name} recv {rc} expected {prc}"
+        if rc != expRc then return some s!"t={t} {name} recv {rc} expected {expRc}"
     prev := post
     first := false
   return none
@@ -134,7 +136,7 @@ def runSim (cs : SimCase) : List String :=
         ["C hdr=" ++ ",".intercalate ((if c.conf.getTicks then ["tick"] else []) ++ c.gets.slots.map (·.name))]
       else []
     let body := tr.flatMap fun r =>
-      (if r.shutdown then [] else [s!"K t={r.tick} pre={ioCells cs.sh r.pre} post={ioCells cs.sh r.post}"])
+      (if r.shutdown then [] else [s!"K t={r.tick} pre={ioCells cs.sh r.pre} post={ioCells cs.sh r.stepped}"])
       ++ (if r.shown.isEmpty then [] else [s!"W t={r.tick} vals={enhex (showLine bits r.shown)}"])
     let rows := tr.flatMap fun r =>
       match r.reported with | some vals => ["C row=" ++ csvRow c bits r.tick vals] | none => []
@@ -201,6 +203,7 @@ def step (s : St) (line : String) : St × List String :=
     let post := (commaList ((kv rest "post").getD "")).map parseCell
     ({ s with sim := { s.sim with implK := s.sim.implK ++ [(t, pre, post)] } }, [])
   | ["G"] => ({ s with sim := {} }, runSim s.sim ++ ["G"])
+  | "#" :: _ => (s, [line])
   | _ => (s, [])
 
 def main : IO Unit := do
